@@ -11,13 +11,11 @@ Open Scope Z_scope.
 
 (* The literal facts read from /repo on this run are the ones the model and the proofs are about:
    the is_adverb set and get_adverb_arity table of types.py, the get_adverb_fn dispatch and the
-   operator-shortcut tables of adverbs.py (operator, NumPy call, guards), and the statements around
-   the shortcut blocks. *)
+   operator-shortcut tables of adverbs.py (operator, NumPy call, guards). *)
 Theorem C02_tables :
   is_adverb_set = is_adverb_model /\ adverb_arity = adverb_arity_model /\ adverb_fn = adverb_fn_model /\
-  over_shortcuts = over_table_model /\ scan_shortcuts = scan_table_model /\
-  over_frame_ok = true /\ scan_frame_ok = true.
-Proof. exact (conj eq_refl (conj eq_refl (conj eq_refl (conj eq_refl (conj eq_refl (conj eq_refl eq_refl)))))). Qed.
+  over_shortcuts = over_table_model /\ scan_shortcuts = scan_table_model.
+Proof. exact (conj eq_refl (conj eq_refl (conj eq_refl (conj eq_refl eq_refl)))). Qed.
 Print Assumptions C02_tables.
 
 (* f'a = f(a1),...,f(aN); atom f(a); [] and "" unchanged; dictionary: f of every [key value] tuple.
@@ -80,6 +78,86 @@ Theorem C02_scan_iterating : forall S (f : val -> M S val) n b fuel s,
   0 <= n -> (Z.to_nat n < fuel)%nat -> m_scan_iterating fuel f (VInt n) b s = s_scan_iterating f n b s.
 Proof. exact scan_iterating_eq. Qed.
 Print Assumptions C02_scan_iterating.
+
+(* ---- The operator shortcuts (the part sampled tests cannot span) ----
+   With the verb's own semantics on integers and nested integer lists (ew2 u: the atomic extension of the
+   scalar operation), the shortcut taken for an operator verb is indistinguishable from the expansion,
+   for EVERY operand a: integer vectors (ufunc.reduce / np.min / np.max / the array itself), integer
+   matrices of any size (reduce along axis 0 column by column = fold of the row-wise operation;
+   concatenation of the rows), length-1 and empty operands, atoms, and object (nested) arrays.
+   The table is the one regenerated from eval_adverb_over on this run (C02_tables / eq_refl). *)
+Theorem C02_over_shortcut_arith : forall S op u (a : val) (s : S),
+  In (op, u) [("+"%string, Z.add); ("-"%string, Z.sub); ("*"%string, Z.mul)] ->
+  m_over over_shortcuts (Some op) (pure2 (ew2 u)) a s = s_over (pure2 (ew2 u)) a s.
+Proof. exact (fun S => eq_ind _ (fun t => forall op u a s, In (op, u) (arith_ops) ->
+                m_over t (Some op) (pure2 (ew2 u)) a s = s_over (pure2 (ew2 u)) a s)
+              (over_shortcut_arith S) _ (eq_refl : over_table_model = over_shortcuts)). Qed.
+Print Assumptions C02_over_shortcut_arith.
+
+Theorem C02_over_shortcut_minmax : forall S op u (a : val) (s : S),
+  In (op, u) [("&"%string, Z.min); ("|"%string, Z.max)] ->
+  m_over over_shortcuts (Some op) (pure2 (ew2 u)) a s = s_over (pure2 (ew2 u)) a s.
+Proof. exact (fun S => eq_ind _ (fun t => forall op u a s, In (op, u) [("&"%string, Z.min); ("|"%string, Z.max)] ->
+                m_over t (Some op) (pure2 (ew2 u)) a s = s_over (pure2 (ew2 u)) a s)
+              (over_shortcut_minmax S) _ (eq_refl : over_table_model = over_shortcuts)). Qed.
+Print Assumptions C02_over_shortcut_minmax.
+
+Theorem C02_over_shortcut_join : forall S (a : val) (s : S),
+  m_over over_shortcuts (Some ","%string) (pure2 join) a s = s_over (pure2 join) a s.
+Proof. exact (fun S => eq_ind _ (fun t => forall a s, m_over t (Some ","%string) (pure2 join) a s = s_over (pure2 join) a s)
+              (over_shortcut_join S) _ (eq_refl : over_table_model = over_shortcuts)). Qed.
+Print Assumptions C02_over_shortcut_join.
+
+(* NumPy's reduce along axis 0, for ANY scalar type and operation (so also float64 division and
+   subtraction): reducing every column on its own is the left fold of the row-wise operation. *)
+Theorem C02_reduce_axis0_any_scalar : forall (A : Type) (u : A -> A -> A) (d : A) n r0 rows,
+  List.length r0 = n -> forallb (fun r => Nat.eqb (List.length r) n) rows = true ->
+  reduce_axis0 u d n (r0 :: rows) = fold_left (zipw u) rows r0.
+Proof. exact reduce_axis0_is_fold. Qed.
+Print Assumptions C02_reduce_axis0_any_scalar.
+
+(* ---- Chains compose left to right, any length: appending an adverb applies it to the monad
+   derived so far; the first adverb is applied to the verb itself. *)
+Theorem C02_chain_left_to_right : forall S fuel op (v : verb S) a1 advs s0,
+  m_chain over_shortcuts scan_shortcuts fuel op v ((a1 :: advs) ++ [s0])
+  = adverb1 over_shortcuts scan_shortcuts fuel s0 op (V1 (m_chain over_shortcuts scan_shortcuts fuel op v (a1 :: advs))).
+Proof. exact (fun S => chain_snoc S over_shortcuts scan_shortcuts). Qed.
+Print Assumptions C02_chain_left_to_right.
+
+(* ---- Converge / While on fuel: if the orbit x 0 = a, x (k+1) = g (x k) reaches a fixpoint (a false
+   test) at step n, then fuel n (n+1) suffices, the result is x n, and the verb (and predicate) are
+   applied exactly to x 0, x 1, ..., x n in that order. *)
+Theorem C02_converge_terminates : forall (g : val -> res val) (x : nat -> val) n,
+  (1 <= n)%nat ->
+  (forall k, (k <= n)%nat -> g (x k) = Ok (x (Datatypes.S k))) ->
+  (forall k, (1 <= k < n)%nat -> conv_eq (x k) (x (Datatypes.S k)) = false) ->
+  conv_eq (x n) (x (Datatypes.S n)) = true ->
+  forall fuel log, (n <= fuel)%nat ->
+  m_converge fuel (logged1 g) (x 0%nat) log = (Ok (x n), log ++ calls_of x 0 (Datatypes.S n)).
+Proof. exact converge_terminates. Qed.
+Print Assumptions C02_converge_terminates.
+
+Theorem C02_while_terminates : forall (p g : val -> res val) (x : nat -> val) n,
+  (forall k, (k < n)%nat -> g (x k) = Ok (x (Datatypes.S k))) ->
+  (forall k, (k < n)%nat -> exists t, p (x k) = Ok t /\ truthy t = Ok true) ->
+  (exists t, p (x n) = Ok t /\ truthy t = Ok false) ->
+  forall fuel log, (n < fuel)%nat ->
+  m_while fuel (loggedp p) (logged1 g) (x 0%nat) log = (Ok (x n), log ++ while_calls x 0 n ++ [CallP (x n)]).
+Proof. exact while_terminates. Qed.
+Print Assumptions C02_while_terminates.
+
+(* Iterate with a negative count never ends (outside the documented domain): every fuel is exhausted *)
+Theorem C02_iterate_negative_refuted_termination :
+  m_iterate 50 (pure1 (fun v => Ok v)) (VInt (-1)) (VInt 0) tt = (OutOfFuel, tt).
+Proof. vm_compute. reflexivity. Qed.
+
+Example C02_shortcut_example :
+  m_over over_shortcuts (Some "-"%string) (pure2 (ew2 Z.sub)) (VList [vints [1; 2]; vints [3; 4]; vints [5; 7]]) tt
+    = (Ok (vints [-7; -9]), tt) /\
+  m_over over_shortcuts (Some ","%string) (pure2 join) (VList [vints [1; 2]; vints [3; 4]]) tt = (Ok (vints [1; 2; 3; 4]), tt) /\
+  m_converge 10 (logged1 (fun v => match v with VInt z => Ok (VInt (z / 2)) | _ => Err 1 end)) (VInt 5) []
+    = (Ok (VInt 0), [Call1 (VInt 5); Call1 (VInt 2); Call1 (VInt 1); Call1 (VInt 0)]).
+Proof. vm_compute. repeat split; reflexivity. Qed.
 
 (* Non-vacuity: a failing, logging verb on a concrete list *)
 Example C02_over_example :
